@@ -213,6 +213,23 @@ def env_proof(work):
         return {"stage": label, "result": "prover did not run: %s" % e}
 
 
+ITER_CFG = ('CONSTANTS\n N = 4\n K = %d\n MaxPasses = 3\n CounterScope = "%s"\n StackHome = "%s"\n StopHonoured = %s\nINIT Init\nNEXT Next\n'
+            'INVARIANTS PassesOK RunningOK\nCHECK_DEADLOCK FALSE\n')
+
+
+def iter_model(work):
+    """ArtIter: the iteration protocol as the code runs it (count per pass, stack per pass or recycled-and-reset, stop honoured),
+    with and without a TopK/BottomK limit: every pass over a sequence value delivers the specified prefix."""
+    runs = []
+    for k, home in ((3, "perPass"), (9, "perPass"), (9, "pooledReset")):
+        r = simple_model(work, "ArtIter", ITER_CFG % (k, "perPass", home, "TRUE"))
+        if r.violation or not r.ok:
+            raise Infra("ArtIter model: %s %s" % (r.violation, r.error or r.out_tail))
+        runs.append({"stage": "model:ArtIter(N=4, K=%d, stack %s, 3 passes)" % (k, home), "states": r.states, "transitions": r.transitions,
+                     "wall_s": round(r.wall, 1)})
+    return runs
+
+
 def env_model(work):
     cfg = ('CONSTANTS\n Keys = {k1, k2, k3}\n Bufs = {b1, b2}\n KeyLen = 8\n MaxOps = 6\n BufferAppendOnly = FALSE\n AliasCaller = FALSE\n'
            ' WriteTerminator = FALSE\n QueryMemo = "none"\nINIT Init\nNEXT Next\nINVARIANTS CallerUntouched KeysOwned BoundedRetention EmptyRetainsNothing QueriesTransparent\nCHECK_DEADLOCK FALSE\n')
